@@ -152,13 +152,14 @@ Section Helpers.
     | NLit _ _ => Panic "model: helper applied to a literal"
     end.
 
-  (** after the C13 repair: only a *string* literal is unwrapped *)
+  (** after the C13 repairs: only a *string* literal is unwrapped - seen through invisible groups, as
+      everywhere else (a `macro_rules!` fragment holding a string literal is that string literal) *)
   Definition parse_str_literal (m : nested) : res value :=
     match m with
     | NPath i _ => Err (with_span (i_span i) (unsupported_format "path"))
     | NList i _ _ _ | NBadList i _ _ _ _ => Err (with_span (i_span i) (unsupported_format "list"))
     | NNameValue _ _ e =>
-        match e with
+        match strip_groups e with
         | ELit i (LStr s) => parse_lit_str reparse GExpr i (LStr s)
         | _ => Ok (VToks (i_toks (einfo e)))
         end
@@ -166,11 +167,12 @@ Section Helpers.
     end.
 
   Lemma helpers_differ_only_on_string_literal m :
-    (forall i p j s, m <> NNameValue i p (ELit j (LStr s))) ->
+    (forall i p e j s, m = NNameValue i p e -> strip_groups e <> ELit j (LStr s)) ->
     parse_str_literal m = preserve_str_literal m.
   Proof.
     intros H. destruct m as [ | | | | i p e]; try reflexivity.
-    destruct e as [j l | | | | | ]; try reflexivity.
+    cbn [parse_str_literal preserve_str_literal]. specialize (H i p e).
+    destruct (strip_groups e) as [j l | | | | | ]; try reflexivity.
     destruct l; try reflexivity. exfalso. eapply H; eauto.
   Qed.
 End Helpers.
